@@ -1,10 +1,13 @@
 package props
 
 import (
+	"bytes"
 	"crypto/x509"
 	"crypto/x509/pkix"
 	"encoding/asn1"
+	"encoding/json"
 	"fmt"
+	"sort"
 	"time"
 
 	"github.com/google/go-tdx-guest/abi"
@@ -36,7 +39,7 @@ func guarded(f func()) (pan any, timedOut bool) {
 }
 
 func C10(c *core.Ctx) {
-	c.Rule = "each public entry point on each untrusted input kind, under recover and a 10 s watchdog: abi.QuoteToProto / verify.RawTdxQuote / validate.RawTdxQuote on all truncations, size-field boundary values and mutations of valid quotes; abi.QuoteToAbiBytes / abi.CheckQuoteV4 / verify.TdxQuote / validate.TdxQuote / verify.ExtractChainFromQuote / verify.SupportedTcbLevelsFromCollateral (on options primed with collateral by an earlier verification) / rtmr.ParseCcelWithTdQuote on every single structural mutation of a valid message (each sub-message nil, each bytes field nil/empty/short/long, RTMR count 0..5, numeric boundaries, nil message); arbitrary collateral / CRL / header responses; arbitrary PEM / DER in the certificate chain; arbitrary DER in the SGX extension through pcs.PckCertificateExtensions (random mutations plus every single byte replaced by 0x00 / 0x13 / 0x7f / 0x80 / 0xff). The model's verdict is compared wherever the entry point is modelled. non-trivial = input reaches beyond the first size check; distinct = distinct (entry point, input)"
+	c.Rule = "each public entry point on each untrusted input kind, under recover and a 10 s watchdog: abi.QuoteToProto / verify.RawTdxQuote / validate.RawTdxQuote on all truncations, size-field boundary values and mutations of valid quotes; abi.QuoteToAbiBytes / abi.CheckQuoteV4 / verify.TdxQuote / validate.TdxQuote / verify.ExtractChainFromQuote / verify.SupportedTcbLevelsFromCollateral (on options primed with collateral by an earlier verification) / rtmr.ParseCcelWithTdQuote on every single structural mutation of a valid message (each sub-message nil, each bytes field nil/empty/short/long, RTMR count 0..5, numeric boundaries, nil message); arbitrary collateral / CRL / header responses; the genuine TCB info and QE identity documents with every member and array element (first two and last of each array) replaced by a value of another JSON shape (0, 7, 12, -1, 1.5, 1e400, null, true, strings, [], {}, nested, 20-digit numbers) or deleted, through the pcs JSON decoders and through verification; arbitrary PEM / DER in the certificate chain; arbitrary DER in the SGX extension through pcs.PckCertificateExtensions (random mutations plus every single byte replaced by 0x00 / 0x13 / 0x7f / 0x80 / 0xff). The model's verdict is compared wherever the entry point is modelled. non-trivial = input reaches beyond the first size check; distinct = distinct (entry point, input)"
 	r := c.Rng
 	w, err := world.HonestWorld(r, baseTime)
 	if err != nil {
@@ -172,6 +175,120 @@ func C10(c *core.Ctx) {
 				}
 				sc.Resp[url] = x
 				runScenario(c, "endpoint-response", fmt.Sprintf("%s: body %d, header %d", url[len(url)-12:], bi, hi), sc, nil, true)
+			}
+		}
+	}
+	// ---- collateral JSON with one member or element replaced by a value of another shape ----
+	{
+		aliens := []string{`0`, `7`, `12`, `-1`, `1.5`, `1e400`, `null`, `true`, `""`, `"0"`, `"zz"`, `"00"`, `"0g"`, `[]`, `{}`, `[0]`, `[null]`, `{"a":0}`, `"` + string(make([]byte, 0)) + `\u0000"`, `"UpToDate"`, `"2026-13-45T00:00:00Z"`, `99999999999999999999`}
+		type variant struct {
+			path string
+			body []byte
+		}
+		// every path of the document, each with the alien values (a rotating subset when quick) and deleted
+		mutants := func(doc []byte) (out []variant) {
+			var root any
+			if json.Unmarshal(doc, &root) != nil {
+				return nil
+			}
+			n := 0
+			canon, _ := json.Marshal(root)
+			defer func() { // a replacement by the value already there is not a mutation
+				kept := out[:0]
+				for _, v := range out {
+					if !bytes.Equal(v.body, canon) {
+						kept = append(kept, v)
+					}
+				}
+				out = kept
+			}()
+			var walk func(node any, path string, put func(v any, del bool) []byte)
+			walk = func(node any, path string, put func(v any, del bool) []byte) {
+				for ai, a := range aliens {
+					n++
+					if !c.Thorough() && (n+ai)%5 != 0 && a != `0` && a != `null` {
+						continue
+					}
+					out = append(out, variant{path + " = " + a, put(json.RawMessage(a), false)})
+				}
+				out = append(out, variant{path + " deleted", put(nil, true)})
+				switch x := node.(type) {
+				case map[string]any:
+					keys := make([]string, 0, len(x))
+					for k := range x {
+						keys = append(keys, k)
+					}
+					sort.Strings(keys)
+					for _, k := range keys {
+						k, old := k, x[k]
+						walk(old, path+"."+k, func(v any, del bool) []byte {
+							if del {
+								delete(x, k)
+							} else {
+								x[k] = v
+							}
+							b := put(x, false)
+							x[k] = old
+							return b
+						})
+					}
+				case []any:
+					for i := range x {
+						if i > 1 && i < len(x)-1 {
+							continue // first two and last elements of every array
+						}
+						i, old := i, x[i]
+						walk(old, fmt.Sprintf("%s[%d]", path, i), func(v any, del bool) []byte {
+							var b []byte
+							if del {
+								y := append(append([]any{}, x[:i]...), x[i+1:]...)
+								b = put(y, false)
+							} else {
+								x[i] = v
+								b = put(x, false)
+								x[i] = old
+							}
+							return b
+						})
+					}
+				}
+			}
+			walk(root, "$", func(v any, del bool) []byte {
+				if del {
+					return []byte{}
+				}
+				b, _ := json.Marshal(v)
+				return b
+			})
+			return out
+		}
+		for _, url := range []string{tcbURL, qeURL} {
+			genuine := scenarioFromWorld(w, true, false).Resp[url].Body
+			for i, m := range mutants(genuine) {
+				m := m
+				name := "tcbInfo"
+				if url == qeURL {
+					name = "qeIdentity"
+				}
+				noPanic("json/"+name, name+" response with "+m.path, true, func() {
+					var t pcs.TdxTcbInfo
+					_ = json.Unmarshal(m.body, &t)
+					var q pcs.QeIdentity
+					_ = json.Unmarshal(m.body, &q)
+				})
+				if c.Thorough() || i%4 == 0 {
+					sc := scenarioFromWorld(w, true, i%8 == 0)
+					sc.Resp = cloneResp(sc.Resp)
+					x := sc.Resp[url]
+					x.Body = m.body
+					sc.Resp[url] = x
+					runScenarioImplOnly(c, "endpoint-json", name+" response with "+m.path, sc, func(cl uint64, err error) string {
+						if cl == 0 {
+							return "accepted with a collateral document that was altered after signing"
+						}
+						return ""
+					})
+				}
 			}
 		}
 	}
